@@ -211,6 +211,11 @@ def group_check(case):
 
 def fock_cases(tier, seed):
     rng = random.Random(seed + 3)
+    # chained substitutions of two Fock matrix elements
+    yield {"num": [], "denom": [], "rem": [["f", ["j", "k"], 1], ["X", ["l", "c", "k"], 1], ["f", ["j", "l"], 1]],
+           "target": "kc"}
+    yield {"num": [], "denom": [], "rem": [["f", ["a", "b"], 1], ["X", ["c", "i"], 1], ["f", ["b", "c"], 1]],
+           "target": "ai"}
     for _ in range(40 if tier == "quick" else 500):
         names = rng.sample(OCC, 3) + rng.sample(VIRT, 3)
         f1 = rng.sample(names, 2)
